@@ -304,6 +304,11 @@ def run_case(case, rec, mon=None):
         dtype = str(rng.choice(["float64", "float64", "float32", "int32", "int32", "float16", "int16"]))
         if kind == "deltas":
             axis = int(rng.integers(-ndim, ndim))
+            if j % 40 == 17:
+                # an utterance of many frames: the filtered axis passes 2^10 / 2^12 / 2^15 / 2^16 entries
+                shape = [min(v, 3) for v in shape]
+                shape[axis % ndim] = int(rng.choice([1023, 4097, 32769, 65537, 65536 + 4096 + 1]))
+                rec.count("deltas_over_a_long_axis")
             if rng.random() < 0.1 and ndim > 1:
                 z = int(rng.integers(ndim))
                 if z != axis % ndim:
@@ -381,6 +386,10 @@ def run_case(case, rec, mon=None):
             axis = int(rng.integers(-ndim, ndim))
             if axis % ndim == time_axis % ndim:
                 axis = (time_axis + 1) % ndim
+            if j % 40 == 17:
+                shape = [min(v, 3) for v in shape]
+                shape[time_axis % ndim] = int(rng.choice([1023, 4097, 32769, 65537, 65536 + 4096 + 1]))
+                rec.count("stack_over_a_long_time_axis")
             if rng.random() < 0.1:
                 z = int(rng.integers(ndim))
                 if z != time_axis % ndim or rng.random() < 0.5:
